@@ -20,7 +20,7 @@
    rebuild the map from the listed directories, so the removed directory <-> items cycle that only
    the cyclic collector frees is not in the map. *)
 From Coq Require Import NArith List Bool Arith.
-From SlskGen Require Import CharTable.
+From SlskGen Require Import CharTable SharesGen.
 Import ListNotations.
 
 Definition str := list N.
@@ -100,7 +100,7 @@ Definition ends_with (k u : str) : bool := prefix_exact (rev u) (rev k).
 
 (* ---------------------------------------------------------------- items and directories *)
 
-Inductive mode := Everyone | Friends | Users.
+(* [mode] (DirectoryShareMode) comes from the regenerated SlskGen.SharesGen *)
 Definition eqb_mode (a b : mode) : bool :=
   match a, b with Everyone, Everyone | Friends, Friends | Users, Users => true | _, _ => false end.
 
@@ -148,6 +148,29 @@ Fixpoint best_parent (p : path) (ds : list dobj) (best : option dobj) : option d
            | None => Some d
            end)
       else best_parent p ds' best
+  end.
+
+(* the other selections the source could make (only used when the regenerated flags say so) *)
+Definition anc_b (p : path) (d : dobj) : bool := path_prefix (dpath d) p && negb (eqb_path (dpath d) p).
+Fixpoint last_anc (p : path) (ds : list dobj) (best : option dobj) : option dobj :=
+  match ds with [] => best | d :: r => last_anc p r (if anc_b p d then Some d else best) end.
+Fixpoint first_anc (p : path) (ds : list dobj) : option dobj :=
+  match ds with [] => None | d :: r => if anc_b p d then Some d else first_anc p r end.
+Fixpoint shortest_anc (p : path) (ds : list dobj) (best : option dobj) : option dobj :=
+  match ds with
+  | [] => best
+  | d :: r => shortest_anc p r (if anc_b p d then match best with
+                                                   | Some b => if (length (dpath d) <? length (dpath b))%nat then Some d else Some b
+                                                   | None => Some d
+                                                   end else best)
+  end.
+(* parents = _get_parent_directories(d) (sorted by path length or not), then parents[-1] or parents[0]: as the source says now *)
+Definition choose_parent (p : path) (ds : list dobj) : option dobj :=
+  match parents_sorted_by_length, parent_pick_last with
+  | true, true => best_parent p ds None
+  | true, false => shortest_anc p ds None
+  | false, true => last_anc p ds None
+  | false, false => first_anc p ds
   end.
 
 (* in-place mutation of the listed object with that path (listed paths are unique: add refuses duplicates) *)
@@ -211,7 +234,7 @@ Definition add_raw (s : state) (p : path) (alias : str) (m : mode) (us : list st
   | Some _ => s
   | None =>
       let nid := next_id s in
-      match best_parent p (listed s) None with
+      match choose_parent p (listed s) with
       | Some par =>
           let nd0 := mkDir nid p alias m us [] in
           let moved := union_eq [] (map (rehome nd0) (filter (under p) (ditems par))) in
@@ -235,7 +258,7 @@ Definition remove_raw (s : state) (p : path) : state :=
   | None => s
   | Some d =>
       let rest := filter (fun e => negb (eqb_path (dpath e) p)) (listed s) in
-      let rest' := match best_parent p rest None with
+      let rest' := match choose_parent p rest with
                    | Some par => replace_dir (set_items par (union_eq (ditems par) (map (rehome par) (ditems d)))) rest
                    | None => rest
                    end in
@@ -360,11 +383,16 @@ Definition prefilter_keys (ks : list str) (q : query) : option (list (list str))
   | _, _ => None
   end.
 Definition filed_under (x : item) (k : str) : bool := mem_str k (item_words x).
-Definition satisfies (x : item) (alts : list str) : bool := existsb (filed_under x) alts.
+(* the set operators are the ones the source uses now (regenerated): union over the keys matching a wildcard,
+   intersection over the constraints *)
+Definition satisfies (x : item) (alts : list str) : bool :=
+  if wildcard_sets_united then existsb (filed_under x) alts else forallb (filed_under x) alts.
+Definition passes (x : item) (cl : list (list str)) : bool :=
+  if include_sets_intersected then forallb (satisfies x) cl else existsb (satisfies x) cl.
 Definition prefilter (s : state) (q : query) : list item :=
   match prefilter_keys (keys s) q with
   | None => []
-  | Some cl => filter (fun x => forallb (satisfies x) cl) (indexed s)
+  | Some cl => filter (fun x => passes x cl) (indexed s)
   end.
 
 (* the regular-expression pass *)
@@ -375,7 +403,7 @@ Definition matches (q : query) (x : item) : bool :=
   forallb (fun t => negb (term_occurs false t p)) (q_excl q).
 (* excluded phrases: case-insensitive containment (phrase and path lower-cased) *)
 Definition phrase_free (phrases : list str) (x : item) : bool :=
-  forallb (fun ph => negb (substring (lower_s ph) (lower_s (qpath x)))) phrases.
+  forallb (fun ph => negb (substring (if phrase_lowered then lower_s ph else ph) (lower_s (qpath x)))) phrases.
 Definition nonempty_l {A} (l : list A) : bool := match l with [] => false | _ => true end.
 Definition has_inclusion (q : query) : bool := nonempty_l (q_incl q) || nonempty_l (q_wild q).
 
@@ -384,18 +412,14 @@ Definition has_inclusion (q : query) : bool := nonempty_l (q_incl q) || nonempty
 Definition query_all (s : state) (q : query) (phrases : list str) : list item :=
   if has_inclusion q then filter (fun x => matches q x && phrase_free phrases x) (prefilter s q) else [].
 Definition query_items (s : state) (q : query) (phrases : list str) (maxr : nat) : list item :=
-  firstn maxr (query_all s q phrases).
+  firstn (if cap_ge then maxr else S maxr) (query_all s q phrases).   (* "len(to_keep) >= max_results" *)
 
 (* ---------------------------------------------------------------- lock split, stats *)
 
 Definition find_obj (s : state) (i : nat) : option dobj := find (fun d => Nat.eqb (did d) i) (listed s).
 (* is_directory_locked *)
 Definition dir_locked (friends : list str) (d : dobj) (user : str) : bool :=
-  match dmode d with
-  | Everyone => false
-  | Friends => negb (mem_str user friends)
-  | Users => negb (mem_str user (dusers d))
-  end.
+  gen_dir_locked (dmode d) (mem_str user friends) (mem_str user (dusers d)).
 (* is_item_locked: through the item's own pointer (item.shared_directory) *)
 Definition item_locked (s : state) (friends : list str) (user : str) (x : item) : bool :=
   match find_obj s (oid x) with Some d => dir_locked friends d user | None => false end.
